@@ -187,7 +187,7 @@ func c06RunEtcd(in c06EIn) (obs c06EObs) {
 		case "req":
 			b64 := base64.StdEncoding.EncodeToString([]byte(op.Creds))
 			req := c06Req{Method: "GET", Path: "/", Host: "example.com", Headers: [][2]string{{"Authorization", "Basic " + b64}}}
-			d := c06Deliver(v, c06Wire(&req), 0, "")
+			d := c06Deliver(v, c06Wire(&req), 1700000000, "", "")
 			exp, _ := c06RefBasic(current, d.View)
 			obs.Steps = append(obs.Steps, c06EStep{B64: b64, Expect: exp, Result: d.Result})
 			if !seen[b64] {
